@@ -69,6 +69,31 @@ fn main() {
 			let known = args.get(4).map(|s| s == "known").unwrap_or(false);
 			runner::survey(prop.as_ref(), runner::seed_from_env(), cases, known)
 		}
+		// strict replay of a raw input file (libFuzzer artifact) against the byte-level oracle
+		"bytes" if args.len() >= 4 && args[2] == "C18" => {
+			kverif::engine::monitor::install_panic_hook();
+			let data = std::fs::read(&args[3]).expect("input file");
+			match kverif::fuzzing::c18_bytes(&data) {
+				Ok(()) => {
+					println!("PASS {} bytes", data.len());
+					0
+				}
+				Err(f) if kverif::fuzzing::is_known(&f) => {
+					println!("KNOWN-FINDING: property=C18 [signature={}] {}", f.sig, f.detail);
+					0
+				}
+				Err(f) => {
+					println!("VIOLATION property=C18 replay={}", args[3]);
+					println!("NOTE C18 oracle={} sig={} :: {}", f.oracle, f.sig, f.detail);
+					1
+				}
+			}
+		}
+		"corpus" if args.len() >= 5 && args[2] == "C18" => {
+			let n = kverif::fuzzing::c18_corpus(Path::new(&args[3]), Path::new(&args[4])).expect("corpus");
+			println!("{n} files");
+			0
+		}
 		_ => usage(),
 	};
 	std::process::exit(code);
